@@ -241,6 +241,8 @@ def run(tier: str, seed: int) -> int:
                     continue
                 if img != model:
                     res.mismatches.append({"op": "mpi.merge", "request": req, "impl": img, "model": model})
+                wtm = drv.call({"op": "ihex.write_image", "image": img["ok"]})       # writer model behind C12_area_file (evidence counter)
+                res.count("writer-model:merge:" + ("same-text" if wtm.get("ok") == impl["ok"] else "other-text"))
                 chk = drv.call({"op": "mpi.check_merge", "img": img["ok"], "address": address, "size": size, "inputs": images})
                 inside = all(address <= a and a + sz <= address + size for a, sz in recs)
                 disjoint = all(a1 + s1 <= a2 or a2 + s2 <= a1 for x, (a1, s1) in enumerate(recs) for (a2, s2) in recs[x + 1:])
